@@ -9,6 +9,14 @@ use pdl_compiler::{analyzer, ast, backends, parser};
 use serde_json::{json, Map, Value};
 use std::panic::{catch_unwind, AssertUnwindSafe};
 
+static PANIC_AT: std::sync::Mutex<Option<String>> = std::sync::Mutex::new(None);
+
+/// {"panic": message, "at": "file:line"} -- the location is for the report only, never part of a finding's key
+fn panic_json(e: Box<dyn std::any::Any + Send>) -> Value {
+    let at = PANIC_AT.lock().ok().and_then(|mut g| g.take());
+    json!({"panic": panic_msg(e), "at": at})
+}
+
 fn panic_msg(e: Box<dyn std::any::Any + Send>) -> String {
     if let Some(s) = e.downcast_ref::<String>() {
         s.clone()
@@ -33,7 +41,11 @@ fn main() {
     }
     std::fs::create_dir_all(outdir).unwrap();
     // silence panic messages on stderr; they are recorded in status.json
-    std::panic::set_hook(Box::new(|_| {}));
+    std::panic::set_hook(Box::new(|info| {
+        if let (Some(l), Ok(mut g)) = (info.location(), PANIC_AT.lock()) {
+            *g = Some(format!("{}:{}", l.file(), l.line()));
+        }
+    }));
 
     let mut names: Vec<String> = std::fs::read_dir(indir)
         .expect("indir")
@@ -58,7 +70,7 @@ fn main() {
         }));
         let file = match parsed {
             Err(e) => {
-                st.insert("parse".into(), json!({"panic": panic_msg(e)}));
+                st.insert("parse".into(), panic_json(e));
                 status.insert(name.clone(), Value::Object(st));
                 continue;
             }
@@ -79,7 +91,7 @@ fn main() {
                 st.insert("json".into(), json!({"error": e}));
             }
             Err(e) => {
-                st.insert("json".into(), json!({"panic": panic_msg(e)}));
+                st.insert("json".into(), panic_json(e));
             }
         }
         let opts: Value = std::fs::read_to_string(indir.join(format!("{name}.opts.json")))
@@ -114,7 +126,7 @@ fn main() {
             let analyzed = catch_unwind(AssertUnwindSafe(|| analyzer::analyze(&filtered)));
             let analyzed = match analyzed {
                 Err(e) => {
-                    st.insert("analyze".into(), json!({"panic": panic_msg(e)}));
+                    st.insert("analyze".into(), panic_json(e));
                     analyze_ok = false;
                     break;
                 }
@@ -143,7 +155,7 @@ fn main() {
                         st.insert(b.clone(), json!({"error": e}));
                     }
                     Err(e) => {
-                        st.insert(b.clone(), json!({"panic": panic_msg(e)}));
+                        st.insert(b.clone(), panic_json(e));
                     }
                 }
                 continue;
@@ -174,7 +186,7 @@ fn main() {
                     st.insert(b.clone(), json!("ok"));
                 }
                 Err(e) => {
-                    st.insert(b.clone(), json!({"panic": panic_msg(e)}));
+                    st.insert(b.clone(), panic_json(e));
                 }
             }
         }
